@@ -82,14 +82,18 @@ class CompSpec:
     self.signals = []     # every signal the class declares (ports, wires, interface members), (expr, td)
     self.children = []    # (expr, CompSpec)
     self.lines = []
+    self.methods = []     # class-level method source lines (for method ports)
     self.features = set()
 
   def source(self):
     body = '\n'.join('    ' + l for l in self.lines) or '    pass'
-    return f'class {self.name}( Component ):\n  def construct( s ):\n{body}\n'
+    meth = ''.join('  ' + l + '\n' for l in self.methods)
+    return f'class {self.name}( Component ):\n{meth}  def construct( s ):\n{body}\n'
 
 class Gen:
-  def __init__(self, rng, uid, maxdepth, big=False):
+  def __init__(self, rng, uid, maxdepth, big=False, nonpure=None):
+    self.nonpure = nonpure      # None / 'method' / 'update_once': makes the design "not pure RTL" for PrepareSimPass
+    self.nonpure_done = False
     self.rng = rng
     self.uid = uid
     self.maxdepth = maxdepth
@@ -169,6 +173,22 @@ class Gen:
       if r < 0.12 and td[0] == 'b':
         L.append(f's.{sink} //= {ty(td)}( {rng.getrandbits(td[1])} )')
         c.features.add('const-net'); return
+      if rng.random() < 0.2:
+        # the sink (a top-level signal: child port, out port) sits on a net whose writer is a field or a slice
+        opts = []
+        for e, t in sources:
+          if t[0] == 's':
+            for f, ft in STRUCTS[t[1]]:
+              if ft == td: opts.append(f'{e}.{f}')
+              elif ft[0] == 's':
+                for f2, ft2 in STRUCTS[ft[1]]:
+                  if ft2 == td: opts.append(f'{e}.{f}.{f2}')
+          elif td[0] == 'b' and t[1] > td[1]:
+            lo = rng.randint(0, t[1] - td[1])
+            opts.append(f'{e}[{lo}:{lo + td[1]}]')
+        if opts:
+          L.append(f's.{sink} //= s.{rng.choice(opts)}')
+          c.features.add('field-or-slice-writer'); return
       src = via_wire(get_source(td), td)
       if r < 0.72:
         L.append(f's.{sink} //= s.{src}'); c.features.add('connect')
@@ -392,6 +412,23 @@ class Gen:
       upblk(stm, ff=True)
       c.features.add('many-nets')
 
+    # ---- not pure RTL: one method port or one update_once block somewhere in the tree
+    if self.nonpure and not self.nonpure_done and (depth == self.maxdepth or rng.random() < 0.5):
+      self.nonpure_done = True
+      bs = bits_sources()
+      if self.nonpure == 'method':
+        rd = f'int( s.{rng.choice(bs)[0]} )' if bs else '0'
+        c.methods += ['def peek_( s ):', f'  return {rd}']
+        L.append('s.peek = CalleePort( method = s.peek_ )')
+        c.features.add('method-port')
+      else:
+        e, td = rng.choice(sources)
+        x = declare('Wire', 'uo', td)
+        n = fresh('once')
+        L += ['@update_once', f'def {n}():', f'  s.{x} @= s.{e}']
+        sources.append((x, td))
+        c.features.add('update-once')
+
     # ---- outputs
     for _ in range(rng.randint(1, 3)):
       td = rng.choice(sources)[1] if rng.random() < 0.8 else self.rand_td()
@@ -410,9 +447,9 @@ class Gen:
     self.classes.append(c)
     return c
 
-def generate(rng, uid, maxdepth, big=False):
+def generate(rng, uid, maxdepth, big=False, nonpure=None):
   """returns (module source, top CompSpec)"""
-  g = Gen(rng, uid, maxdepth, big)
+  g = Gen(rng, uid, maxdepth, big, nonpure)
   top = g.gen_comp(maxdepth)
   src = HEADER + '\n' + '\n'.join(c.source() for c in g.classes)
   return src, top
